@@ -496,6 +496,10 @@ N("C08/record/tail-values", ["C08", "C12"], "board::verif_kani_f::n08_record_tai
   "for both sides x all 16 rights sets x every rank-consistent en-passant mark (and none) x every value of each counter (and a 9x9 grid of boundary pairs), board field fixed: the record is exactly six space-separated fields in order (side, rights as KQkq or -, the square behind the marked pawn or -, half-move clock, move number) and from_str of the text returns the same raw board (exhaustive native evaluation, ~38 million records)",
   timeout=3000)
 
+K("C12/san/from-str-4", ["C12", "C09", "C02"], "moves::san::verif_kani_d::c12_san_from_str_total_len4", ["<san::Move as FromStr>::from_str", "<san::Data as FromStr>::from_str"],
+  "for all UTF-8 strings of <= 4 bytes (this contains every input of defect D2: \"N\", \"R+\", \"Kx\", \"\\u{20ac}\", \"N\\u{e9}4\"): SAN parsing returns a value or an error, never panics",
+  bounded="strings of <= 4 bytes", assumes=["C12/utf8-predicate"], timeout=2400, mem_gb=24, mem_est=6)
+
 
 def by_id():
     return {o["id"]: o for o in OBS}
